@@ -55,6 +55,13 @@ Init == /\ phase = "enc" /\ stk = <<<<>>>> /\ tree = <<>> /\ out = <<>> /\ cur =
 
 EncBytes(n, c) == /\ CanAdd /\ Put(BytesItem(n, c)) /\ Log(Call("bytes", n, c, "ok"))
                   /\ UNCHANGED <<phase, tree, out, cur, devs, sdig>>
+\* an object with MarshalRLP hands its own encoding to the writer (WriteRaw); the item is what that encoding holds
+RawItems == {BytesItem(1, "lo"), NilItem, ListItem(<<>>), ListItem(<<BytesItem(1, "lo"), NilItem>>)}
+            \cup {BytesItem(n, "x") : n \in (Lens \cap {0, 56})}
+EncRaw(it) == /\ CanAdd /\ StkNodes(stk) - 1 + Nodes(it) <= MaxNodes
+              /\ Put(it)
+              /\ Log([op |-> "raw", n |-> 0, c |-> "x", res |-> "ok", item |-> it, stream |-> Enc(it)])
+              /\ UNCHANGED <<phase, tree, out, cur, devs, sdig>>
 EncNil == /\ CanAdd /\ Put(NilItem) /\ Log(Call("nil", 0, "x", "ok"))
           /\ UNCHANGED <<phase, tree, out, cur, devs, sdig>>
 EncList == /\ CanAdd /\ Len(stk) <= MaxDepth
@@ -99,6 +106,12 @@ DecList ==
      ELSE /\ devs < MaxDev /\ devs' = devs + 1 /\ phase' = "done" /\ UNCHANGED cur
           /\ Log(DCall("dlist", 0, "x", "invalid", Path))
   /\ UNCHANGED <<stk, tree, out, sdig>>
+\* an object with UnmarshalRLP receives the raw encoding of the next item, whatever it is (ReadRaw)
+DecRaw ==
+  /\ phase = "dec" /\ ~AtEnd /\ devs < MaxDev
+  /\ devs' = devs + 1 /\ Advance
+  /\ Log(DCall("draw", 0, "x", "ok", Path) @@ [stream |-> Enc(NextItem)])
+  /\ UNCHANGED <<phase, stk, tree, out, sdig>>
 DecSkip ==
   /\ phase = "dec" /\ ~AtEnd /\ devs < MaxDev
   /\ devs' = devs + 1 /\ Advance /\ Log(DCall("dskip", 0, "x", "ok", Path))
@@ -143,22 +156,37 @@ Reheader(s, z, newsize) ==
     \o (IF z.kind = "l" THEN ListHeader(newsize) ELSE StrHeader(newsize))
     \o SubSeq(s, z.at + z.hlen, Len(s))
 
+\* Skip(1) over the first item looks at its header only: it succeeds iff the header is complete and the input
+\* holds the bytes the header announces (what is inside a list is not examined)
+TopSkipOK(s) ==
+  IF s = <<>> THEN FALSE
+  ELSE IF s[1].t = "p" THEN TRUE
+  ELSE LET tag == s[1].v
+           long == (tag > 183 /\ tag < 192) \/ tag > 247
+           k == IF tag > 247 THEN tag - 247 ELSE IF long THEN tag - 183 ELSE 0
+       IN IF tag < 128 THEN TRUE
+          ELSE IF Len(s) < 1 + k \/ k > 3 \/ (\E i \in 2..(1 + k) : s[i].t # "h") THEN FALSE
+          ELSE LET sz == IF long THEN BEVal(s, 2, k) ELSE IF tag < 192 THEN tag - 128 ELSE tag - 192
+               IN Size(SubSeq(s, 2 + k, Len(s))) >= sz
+CLog(n, c, st) == Log([op |-> "corrupt", n |-> n, c |-> c, res |-> "reject", stream |-> st,
+                       skip |-> IF TopSkipOK(st) THEN "ok" ELSE "reject"])
 Corrupt ==
   /\ phase = "dec" /\ hist[Len(hist)].op = "finish" /\ Len(tree) = 1
   /\ \/ \E keep \in ({1, 2, Size(out) - 1, Size(out) \div 2} \cup {Size(SubSeq(out, 1, j)) : j \in 1..Len(out)})
                         \cap (1..(Size(out) - 1)) :
           /\ out' = Cut(out, keep)
-          /\ Log([op |-> "corrupt", n |-> keep, c |-> "truncate", res |-> "reject", stream |-> Cut(out, keep)])
+          /\ CLog(keep, "truncate", Cut(out, keep))
      \/ \E z \in Sized(tree, 1, Size(out)) : \E extra \in {1, Size(out)} :
           LET ns == z.size + z.after + extra IN
           /\ out' = Reheader(out, z, ns)
-          /\ Log([op |-> "corrupt", n |-> ns, c |-> "inflate", res |-> "reject", stream |-> Reheader(out, z, ns)])
+          /\ CLog(ns, "inflate", Reheader(out, z, ns))
      \/ \E z \in Sized(tree, 1, Size(out)) :
-          \* an 8-byte size field holding MaxInt64
-          LET hs == <<H(IF z.kind = "l" THEN 255 ELSE 191), H(127)>> \o [i \in 1..7 |-> H(255)]
+          \* an 8-byte size field holding MaxInt64, or a value above it (first byte FF)
+          \E top \in {127, 255} :
+          LET hs == <<H(IF z.kind = "l" THEN 255 ELSE 191), H(top)>> \o [i \in 1..7 |-> H(255)]
               st == SubSeq(out, 1, z.at - 1) \o hs \o SubSeq(out, z.at + z.hlen, Len(out))
           IN /\ out' = st
-             /\ Log([op |-> "corrupt", n |-> 0, c |-> "huge", res |-> "reject", stream |-> st])
+             /\ CLog(top, "huge", st)
   /\ phase' = "bad"
   /\ UNCHANGED <<stk, tree, cur, devs, sdig>>
 
@@ -169,9 +197,12 @@ Redundant(s) == Len(s) > 1 /\ ((s[1] = "z" /\ ~Hi(s[2])) \/ (s[1] = "f" /\ Hi(s[
 RECURSIVE Canon(_)
 Canon(s) == IF s = <<>> THEN <<"z">> ELSE IF Redundant(s) THEN Canon(Tail(s)) ELSE s
 IntOK(s, w) == Len(s) <= 8 /\ Len(Canon(s)) <= w
-UintOK(s, w) == /\ s = <<>> \/ (s[1] = "z" /\ Len(s) <= 9) \/ (s[1] = "p" /\ Len(s) <= 8)
+UintOK(s, w) == /\ s = <<>> \/ (s[1] = "z" /\ Len(s) <= 9) \/ (s[1] \in {"p", "o"} /\ Len(s) <= 8)
                 /\ LET cn == Canon(s) IN Len(cn) <= w \/ (Len(cn) = w + 1 /\ cn[1] = "z")
-Targets == {<<"int", 1>>, <<"int", 2>>, <<"int", 4>>, <<"int", 8>>,
+\* "o" is the byte 01 (a "p" byte that matters for bool); width 0 = the platform types int / uint (8 bytes)
+BoolOK(s) == UintOK(s, 8) /\ Canon(s) \in {<<"z">>, <<"o">>}
+W8(w) == IF w = 0 THEN 8 ELSE w
+Targets == {<<"bool", 1>>, <<"int", 0>>, <<"uint", 0>>, <<"int", 1>>, <<"int", 2>>, <<"int", 4>>, <<"int", 8>>,
             <<"uint", 1>>, <<"uint", 2>>, <<"uint", 4>>, <<"uint", 8>>}
 \* the caller assembles the byte string (shaping: two free leading digits, a third that repeats or differs,
 \* then repetitions)
@@ -186,11 +217,14 @@ Scalar(tg) ==
   /\ phase \in {"enc", "scalar"} /\ hist = <<>> /\ stk = <<<<>>>>
   /\ phase' = "done"
   /\ Log([op |-> "scalar", n |-> tg[2], c |-> tg[1], digits |-> sdig, canon |-> sdig # <<>> /\ ~Redundant(sdig),
-          res |-> IF (IF tg[1] = "int" THEN IntOK(sdig, tg[2]) ELSE UintOK(sdig, tg[2])) THEN "ok" ELSE "reject"])
+          res |-> IF (CASE tg[1] = "int" -> IntOK(sdig, W8(tg[2])) [] tg[1] = "uint" -> UintOK(sdig, W8(tg[2]))
+                           [] OTHER -> BoolOK(sdig)) THEN "ok" ELSE "reject"])
   /\ UNCHANGED <<stk, tree, out, cur, devs, sdig>>
 
 Next == \/ \E n \in Lens : \E c \in Classes(n) : EncBytes(n, c)
         \/ EncNil
+        \/ \E it \in RawItems : EncRaw(it)
+        \/ DecRaw
         \/ EncList
         \/ EncEnd
         \/ Finish
@@ -199,7 +233,7 @@ Next == \/ \E n \in Lens : \E c \in Classes(n) : EncBytes(n, c)
         \/ DecSkip
         \/ DecPop
         \/ Corrupt
-        \/ \E d \in {"z", "p", "n", "f"} : SPush(d)
+        \/ \E d \in {"z", "o", "p", "n", "f"} : SPush(d)
         \/ \E tg \in Targets : Scalar(tg)
 Spec == Init /\ [][Next]_vars
 
